@@ -20,7 +20,7 @@ def biased_schedules(rnd, n):
         fire_at = rnd.randint(0, 12)
         for i in range(rnd.randint(6, 18)):
             if i == fire_at and not fired:
-                steps.append({'op': 'fire', 'c': 0, 'k': 0}); fired = True; continue
+                steps.append({'op': 'fire', 'c': 0, 'k': 0, 'nb': rnd.random() < 0.3}); fired = True; continue
             choices = []
             for c in range(1, nconn + 1):
                 if c not in offered:
@@ -35,6 +35,8 @@ def biased_schedules(rnd, n):
             if not choices:
                 break
             st = rnd.choice(choices)
+            if st['op'] in ('offer', 'drop', 'release') and rnd.random() < 0.3:
+                st['nb'] = True          # no barrier: the next step follows in the same scheduler tick
             steps.append(st)
             if st['op'] == 'offer': offered.add(st['c'])
             if st['op'] == 'drop': dropped.add(st['c'])
